@@ -53,8 +53,25 @@ enum VType {
     Int,
     Bool,
     Json,
+    /// a Serialize value without a JSON form (a map keyed by tuples): whether the key is reserved must not
+    /// depend on what the value is
+    NoJson,
+    /// a value whose Serialize implementation returns an error
+    FailingSerialize,
 }
-const VTYPES: [VType; 4] = [VType::Str, VType::Int, VType::Bool, VType::Json];
+const VTYPES: [VType; 6] = [VType::Str, VType::Int, VType::Bool, VType::Json, VType::NoJson, VType::FailingSerialize];
+const NO_JSON_SENTINEL: &str = "<value without a JSON form>";
+fn tuple_map() -> std::collections::BTreeMap<(u8, u8), u8> {
+    let mut m = std::collections::BTreeMap::new();
+    m.insert((1u8, 2u8), 3u8);
+    m
+}
+struct Failing;
+impl serde::Serialize for Failing {
+    fn serialize<S: serde::Serializer>(&self, _s: S) -> Result<S::Ok, S::Error> {
+        Err(serde::ser::Error::custom("this value refuses to be serialised"))
+    }
+}
 
 /// constructs through the given form / value type; Ok((key read back, value read back as JSON))
 fn construct(key: &str, form: usize, vt: VType) -> Result<Result<(String, Value), adapter::ErrClass>, String> {
@@ -67,12 +84,16 @@ fn construct(key: &str, form: usize, vt: VType) -> Result<Result<(String, Value)
                 VType::Int => CustomClaim::try_from((key, -7i64)).map(|c| (c.as_ref().0.clone(), json!(c.as_ref().1))).map_err(e),
                 VType::Bool => CustomClaim::try_from((key, true)).map(|c| (c.as_ref().0.clone(), json!(c.as_ref().1))).map_err(e),
                 VType::Json => CustomClaim::try_from((key, json!({"exp": [1, null]}))).map(|c| (c.as_ref().0.clone(), c.as_ref().1.clone())).map_err(e),
+                VType::NoJson => CustomClaim::try_from((key, tuple_map())).map(|c| (c.as_ref().0.clone(), json!(NO_JSON_SENTINEL))).map_err(e),
+                VType::FailingSerialize => CustomClaim::try_from((key, Failing)).map(|c| (c.as_ref().0.clone(), json!(NO_JSON_SENTINEL))).map_err(e),
             },
             _ => match vt {
                 VType::Str => CustomClaim::try_from((key.to_string(), "v\u{00e9}")).map(|c| (c.as_ref().0.clone(), json!(c.as_ref().1))).map_err(e),
                 VType::Int => CustomClaim::try_from((key.to_string(), -7i64)).map(|c| (c.as_ref().0.clone(), json!(c.as_ref().1))).map_err(e),
                 VType::Bool => CustomClaim::try_from((key.to_string(), true)).map(|c| (c.as_ref().0.clone(), json!(c.as_ref().1))).map_err(e),
                 VType::Json => CustomClaim::try_from((key.to_string(), json!({"exp": [1, null]}))).map(|c| (c.as_ref().0.clone(), c.as_ref().1.clone())).map_err(e),
+                VType::NoJson => CustomClaim::try_from((key.to_string(), tuple_map())).map(|c| (c.as_ref().0.clone(), json!(NO_JSON_SENTINEL))).map_err(e),
+                VType::FailingSerialize => CustomClaim::try_from((key.to_string(), Failing)).map(|c| (c.as_ref().0.clone(), json!(NO_JSON_SENTINEL))).map_err(e),
             },
         }
     })
@@ -87,6 +108,7 @@ fn expected_value(form: usize, vt: VType) -> Value {
         VType::Int => json!(-7),
         VType::Bool => json!(true),
         VType::Json => json!({"exp": [1, null]}),
+        VType::NoJson | VType::FailingSerialize => json!(NO_JSON_SENTINEL),
     }
 }
 
@@ -134,7 +156,7 @@ fn check_key(key: &str, acc: &mut Acc, with_token: bool) {
                         acc.violate(sig("not-kept-verbatim"), format!("key/value changed by the constructor: {:?} -> {:?}, value {}", key, k2, v2), case);
                     } else {
                         acc.controls_ok += 1;
-                        if with_token && !key.is_empty() {
+                        if with_token && !key.is_empty() && !matches!(vt, VType::NoJson | VType::FailingSerialize) {
                             acc.impl_calls += 2;
                             match through_token(key, form, vt) {
                                 Some(v) if v.as_object().map_or(false, |o| o.len() == 1 && o.get(key) == Some(&expected_value(form, vt))) => acc.bump("read-back-through-token"),
@@ -321,7 +343,7 @@ pub fn run(tier: &str) -> i32 {
         crate::report::machinery_error("C18: nothing was constructed (vacuous)");
     }
     let extra = json!({
-        "space": "custom keys: every string of length 0..=4 over {e,x,p,E,i,s,blank,NUL} (4 681) + decorated variants of the 7 registered keys + Unicode keys, x 3 constructor forms x 4 value types; time constructors: 8 dates x 5 times x 13 fraction forms x 2 881 offsets x 3 claims x {&str, String}; strings that do not start with an ISO 8601 date",
+        "space": "custom keys: every string of length 0..=4 over {e,x,p,E,i,s,blank,NUL} (4 681) + decorated variants of the 7 registered keys + Unicode keys, x 3 constructor forms x 6 value types (string, integer, boolean, JSON value, a map without JSON form, a value whose Serialize fails); time constructors: 8 dates x 5 times x 13 fraction forms x 2 881 offsets x 3 claims x {&str, String}; strings that do not start with an ISO 8601 date",
         "time_grid_offset_stride": stride,
         "distinct_rule": "distinct (key, form, value type) and distinct time strings",
         "caps_hit": if quick { json!(["quick: every 13th UTC offset in the time-constructor grid"]) } else { json!([]) },
